@@ -3,7 +3,7 @@ from __future__ import annotations
 import os
 import typing
 
-from pygopherd import gopherentry
+from pygopherd import GopherExceptions, gopherentry
 from pygopherd.handlers.base import VFS_Real
 from pygopherd.handlers.file import FileHandler
 
@@ -61,6 +61,7 @@ class TALFileHandler(FileHandler):
 
     talbasename: str
     allowpythonpath: int
+    template = None
 
     def canhandlerequest(self):
         """We can handle the request if it's for a file ending with .thtml."""
@@ -98,7 +99,21 @@ class TALFileHandler(FileHandler):
 
         return self.entry
 
+    def prepare(self):
+        # Compile before the protocol announces success, so that a template
+        # with a syntax error is answered with an error reply.
+        # SimpleTAL doesn't support reading from binary files
+        try:
+            with self.vfs.open(self.getselector(), "r", errors="replace") as rfile:
+                self.template = simpleTAL.compileHTMLTemplate(rfile)
+        except simpleTAL.TemplateParseException as e:
+            raise GopherExceptions.FileNotFound(
+                self.getselector(), "template error: %s" % e, self.protocol
+            )
+
     def write(self, wfile):
+        if self.template is None:
+            self.prepare()
         context = simpleTALES.Context(allowPythonPath=self.allowpythonpath)
         context.addGlobal("selector", self.getselector())
         context.addGlobal("handler", self)
@@ -112,7 +127,4 @@ class TALFileHandler(FileHandler):
         context.addGlobal("dir", TALLoader(self.vfs, dirname))
         context.addGlobal("rdir", RecursiveTALLoader(self.vfs, dirname))
 
-        # SimpleTAL doesn't support reading from binary files
-        with self.vfs.open(self.getselector(), "r", errors="replace") as rfile:
-            template = simpleTAL.compileHTMLTemplate(rfile)
-        template.expand(context, wfile)
+        self.template.expand(context, wfile)
